@@ -446,9 +446,15 @@ def _respell(R, rng, ep, args, kwargs, fn, bool_ret, limit):
         if name == "BytesIO":
             continue          # a caller's stream is not held to "no trailing bytes": only the class oracle applies
         if base is None:
-            base = (name, outcome, value)
+            base = (name, outcome, value, a2, k2)
             continue
         same = (outcome == "ok") == (base[1] == "ok") and (outcome != "ok" or _same_value(base[2], value))
+        if not same and outcome == "ok" == base[1]:
+            # a randomised function (fresh identifiers, nonces) differs from itself: nothing to compare
+            o3, v3 = _call_spec(R, "spell", ep, base[3], base[4], fn=fn, bool_ret=bool_ret, consumers=False,
+                                stream_check=False, limit=limit)
+            if o3 == "ok" and not _same_value(base[2], v3):
+                return
         if not same:
             w = {"ep": ep, "args": a2, "kwargs": k2}
             R.fail(f"{ep}:spelling-differs", "spell",
